@@ -124,6 +124,32 @@ class Check:
         return 1 if violations else 0
 
 
+class Relabel:
+    """view of a Check that files every obligation of a borrowed rule function under one rule id of the borrowing
+    property (keys keep the original rule id as a prefix)"""
+
+    def __init__(self, chk, rid, prefix=""):
+        self._chk, self._rid, self._prefix = chk, rid, prefix
+
+    def _key(self, rule, key):
+        return "%s%s:%s" % (self._prefix, rule, key)
+
+    def ok(self, rule, key, site="", detail=""):
+        return self._chk.ok(self._rid, self._key(rule, key), site, detail)
+
+    def fail(self, rule, key, site="", detail="", path=None, undecided=False):
+        return self._chk.fail(self._rid, self._key(rule, key), site, detail, path, undecided=undecided)
+
+    def require(self, cond, rule, key, site="", detail="", path=None):
+        return self._chk.require(cond, self._rid, self._key(rule, key), site, detail, path)
+
+    def rule(self, rid, text):
+        pass
+
+    def __getattr__(self, n):
+        return getattr(self._chk, n)
+
+
 def load_known_findings():
     p = os.path.join(VERIF, "known_findings.json")
     with open(p) as fh:
